@@ -117,7 +117,7 @@ def _compare(c, case, keys, obs, line_out, info, label):
                                         model=dict(pay=str(mo.get("pay"))[:300])))
         return True
     if mo.get("local"):
-        mo = dict(seen="local", imp="( )", init=0, out="local", pay=obs.get("pay"))
+        mo = dict(seen="local", imp="( )", init=0, code=0, out="local", pay=obs.get("pay"))
     if "NOT-MODELLED" in mo.get("out", ""):
         c.count(label + ":not-modelled")
         return False
@@ -202,7 +202,7 @@ def correspondence(ctx):
     for i, spec in enumerate(specs + custom):
         try:
             for s, rr, line, obs, info in vc.direct_product(spec, ALL32, with_tb=(i % 4 == 0)):
-                add(dict(kind="exc", spec=spec, s=s, r=rr, mode="direct"), ["pay", "imp", "init", "out", "seen"], line, obs, info,
+                add(dict(kind="exc", spec=spec, s=s, r=rr, mode="direct"), ["pay", "imp", "init", "code", "out", "seen"], line, obs, info,
                     "direct:" + ("custom" if not spec["cls"].startswith("builtins:") else "builtin"),
                     _sig_exc("d", spec, s, rr, obs["seen"]))
         except (vc.Skip, ve.Unrepresentable) as ex:
@@ -216,7 +216,7 @@ def correspondence(ctx):
         except (vc.Skip, ve.Unrepresentable) as ex:
             c.count("skipped:" + str(ex)[:40])
             continue
-        add(dict(kind="payload", payload=valtext.to_text(p), r=rr, mode="direct"), ["imp", "init", "out", "seen"], line, obs, info,
+        add(dict(kind="payload", payload=valtext.to_text(p), r=rr, mode="direct"), ["imp", "init", "code", "out", "seen"], line, obs, info,
             "direct:payload", _sig_payload("d", p, rr, obs["out"]))
     t2 = time.time()
     # 3. end to end over simnet
@@ -239,7 +239,7 @@ def correspondence(ctx):
                 except (vc.Skip, ve.Unrepresentable) as ex:
                     c.count("skipped:" + str(ex)[:40])
                     continue
-                add(dict(kind="exc", spec=spec, s=s, r=rr, mode="e2e"), ["imp", "init", "seen"], line, obs, info,
+                add(dict(kind="exc", spec=spec, s=s, r=rr, mode="e2e"), ["imp", "init", "code", "seen"], line, obs, info,
                     "e2e:" + ("custom" if not spec["cls"].startswith("builtins:") else "builtin"),
                     _sig_exc("e", spec, s, rr, obs["seen"]))
         for k in range(ctx.budget(2500, 30000)):
@@ -249,7 +249,7 @@ def correspondence(ctx):
             except (vc.Skip, ve.Unrepresentable) as ex:
                 c.count("skipped:" + str(ex)[:40])
                 continue
-            add(dict(kind="payload", payload=valtext.to_text(p), r=rr, mode="e2e"), ["imp", "init", "seen"], line, obs, info,
+            add(dict(kind="payload", payload=valtext.to_text(p), r=rr, mode="e2e"), ["imp", "init", "code", "seen"], line, obs, info,
                 "e2e:payload", _sig_payload("e", p, rr, obs["seen"]))
     finally:
         for pr in pairs.values():
@@ -263,7 +263,7 @@ def correspondence(ctx):
                                                                      for _ in range(ctx.budget(2, 6))]
         try:
             for s2, r2, line, obs, info in vc.two_hop_product(spec, s1, r1, cfg2):
-                add(dict(kind="exc2", spec=spec, s=s1, r=r1, s2=s2, r2=r2, mode="direct"), ["pay", "imp", "init", "out", "seen"],
+                add(dict(kind="exc2", spec=spec, s=s1, r=r1, s2=s2, r2=r2, mode="direct"), ["pay", "imp", "init", "code", "out", "seen"],
                     line, obs, info, "two-hop:direct", _sig_exc("2d", spec, s1[:2] + s2[:2], r1 + r2, obs["seen"]))
         except (vc.Skip, ve.Unrepresentable) as ex:
             c.count("skipped:" + str(ex)[:40])
@@ -663,6 +663,8 @@ TWO_HOP_SPECS = [
 ]
 BOUNDARY_PAYLOADS = [
     (("builtins", "int"), (), (), "tb"), (("builtins", "object"), (), (), "tb"), (("builtins", "print"), (), (), "tb"),
+    (("concurrent.futures", "ProcessPoolExecutor"), (), (), "tb"), (("c09pool_lazy", "LazyErr"), (1,), (), "tb"),
+    (("c09pool_lazy", "Missing"), (), (), "tb"),
     (("c09pool_loaded", "AppError"), (1,), (), "tb"), (("c09pool_fresh", "AppError"), (1,), (), "tb"),
     (("c09pool_loaded", "NotExc"), (1,), (), "tb"), (("c09pool_broken", "X"), (), (), "tb"), (("os", "error"), (), (), "tb"),
     (("builtins", "ValueError"), (), (("__class__", 5),), "tb"), 1, True, "x", (), None,
